@@ -512,3 +512,104 @@ func sortedKeys[V any](m map[string]V) []string {
 	sort.Strings(ks)
 	return ks
 }
+
+func fieldKey(fa *ssa.FieldAddr) string {
+	pt := fa.X.Type().Underlying().(*types.Pointer).Elem()
+	st := pt.Underlying().(*types.Struct)
+	name := "?"
+	if n, ok := pt.(*types.Named); ok && n.Obj().Pkg() != nil {
+		name = n.Obj().Pkg().Path() + "." + n.Obj().Name()
+	}
+	return strings.TrimPrefix(name, modPath+"/") + "." + st.Field(fa.Field).Name()
+}
+
+// constReturn: every return of fn yields the same string constant.
+func constReturn(fn *ssa.Function) (string, bool) {
+	val, have := "", false
+	for _, r := range returnsOf(fn) {
+		if len(r.Results) != 1 {
+			return "", false
+		}
+		s, ok := constString(r.Results[0])
+		if !ok {
+			return "", false
+		}
+		if have && s != val {
+			return "", false
+		}
+		val, have = s, true
+	}
+	return val, have
+}
+
+// parseKongTag splits `cmd,name='x',help='a, b'` into its items.
+func parseKongTag(tag string) map[string]string {
+	out := map[string]string{}
+	var cur strings.Builder
+	inq := false
+	flush := func() {
+		item := strings.TrimSpace(cur.String())
+		cur.Reset()
+		if item == "" {
+			return
+		}
+		kv := strings.SplitN(item, "=", 2)
+		v := ""
+		if len(kv) == 2 {
+			v = strings.Trim(kv[1], "'")
+		}
+		out[kv[0]] = v
+	}
+	for _, r := range tag {
+		switch {
+		case r == '\'':
+			inq = !inq
+			cur.WriteRune(r)
+		case r == ',' && !inq:
+			flush()
+		default:
+			cur.WriteRune(r)
+		}
+	}
+	flush()
+	return out
+}
+
+// returnsNilError: the return's error result may be nil (constant nil, or a named result whose last store in the
+// returning block is nil / which has no store in that block).
+func returnsNilError(r *ssa.Return) bool {
+	if len(r.Results) == 0 {
+		return true
+	}
+	last := r.Results[len(r.Results)-1]
+	if !isErrorType(last.Type()) {
+		return true
+	}
+	if isNilConst(last) {
+		return true
+	}
+	if u, ok := last.(*ssa.UnOp); ok && u.Op == token.MUL {
+		if al := allocOf(u.X); al != nil {
+			var lastStore *ssa.Store
+			for _, in := range r.Block().Instrs {
+				if s, ok := in.(*ssa.Store); ok && allocOf(s.Addr) == al {
+					lastStore = s
+				}
+			}
+			if lastStore == nil {
+				return true // unknown: be conservative
+			}
+			return isNilConst(lastStore.Val)
+		}
+	}
+	// a value that was tested non-nil on the way here is an error return
+	for _, t := range nilTestsOf(last) {
+		if t.onErr == r.Block() || t.onErr.Dominates(r.Block()) {
+			return false
+		}
+	}
+	if _, isCall := last.(*ssa.Call); isCall {
+		return false // `return fmt.Errorf(...)` style
+	}
+	return true
+}
